@@ -45,6 +45,51 @@ THEOREMS = [
     "KrroodVerif.Pred.isInstance_eq_isVar",
     "KrroodVerif.Pred.any_isInstance_eq_isSymbolic",
 ]
+TRANSLATED = ["KrroodVerif.Pred.Translated.C12_merge_translated_eq_model",
+              "KrroodVerif.Pred.Translated.C12_decision_translated_eq_model",
+              "KrroodVerif.Pred.Translated.C12_dispatch_translated_eq_model",
+              "KrroodVerif.Pred.Translated.C12_translated_merge_eq_bind",
+              "KrroodVerif.Pred.Translated.C12_translated_meets_property"]
+
+
+def extra_obligations():
+    """Second tie: regenerate from /repo's CURRENT source (Python ast of predicate.py and symbolic.py) the merge, the
+    symbolic/concrete decision (incl. the class statements it depends on) and the two dispatchers, and have the Lean
+    kernel re-check that they ARE the model's `mergeArgs` / `isSymbolic` / `dispatch codeQuirks` for every signature and
+    call split, and that the property theorems hold of the translated functions."""
+    import os
+    import re
+    import subprocess
+    from translate.c12_translate import generate as gen, TranslationError
+    try:
+        text = gen(core.REPO)
+    except (TranslationError, SyntaxError, OSError, RecursionError) as e:
+        return [{"name": n, "ok": False, "detail": f"translator rejected the source: {e}"} for n in TRANSLATED]
+    tmp = core.LEAN_DIR / ".lake" / "audit"
+    tmp.mkdir(parents=True, exist_ok=True)
+    f = tmp / f"C12Translated_{os.getpid()}.lean"
+    f.write_text(text + "".join(f"#print axioms {n}\n" for n in TRANSLATED))
+    try:
+        p = subprocess.run(["lake", "env", "lean", str(f)], cwd=str(core.LEAN_DIR), capture_output=True, text=True,
+                           timeout=600)
+    finally:
+        try:
+            f.unlink()
+        except OSError:
+            pass
+    out = " ".join(((p.stdout or "") + (p.stderr or "")).split())
+    res = []
+    for n in TRANSLATED:
+        m = re.search(r"'" + re.escape(n) + r"' depends on axioms: \[([^\]]*)\]", out)
+        none = re.search(r"'" + re.escape(n) + r"' does not depend on any axioms", out)
+        ax = [a.strip() for a in m.group(1).split(",")] if m else ([] if none else None)
+        ok = ax is not None and set(ax) <= core.ALLOWED_AXIOMS and "sorryAx" not in (ax or [])
+        res.append({"name": n, "ok": ok, "axioms": ax,
+                    "detail": "regenerated definitions:\n" + text[text.find("def classTable"):text.find("/-- the merge of the current")]
+                              + (p.stdout or "")[-1500:] + (p.stderr or "")[-800:]})
+    return res
+
+
 MODEL_FUNCTION = ("Pred.mergeArgs / Pred.dispatch / Pred.evalSym / Pred.run / Pred.runHistory with Drive.C12.codeQuirks "
                   "(Model/Predicate.lean); specification Pred.bind / Pred.spec")
 TRUSTED = [
